@@ -1,0 +1,19 @@
+//go:build verif
+
+package multiplexing
+
+// VerifMessageKinds returns the wire values of the message kinds in the order
+// heartbeat, open, accept, data, window increment, close write, close, and the
+// maximum data block size. It exists only for the verification harness and
+// exports constants without changing behaviour.
+func VerifMessageKinds() ([7]byte, int) {
+	return [7]byte{
+		byte(messageKindMultiplexerHeartbeat),
+		byte(messageKindStreamOpen),
+		byte(messageKindStreamAccept),
+		byte(messageKindStreamData),
+		byte(messageKindStreamWindowIncrement),
+		byte(messageKindStreamCloseWrite),
+		byte(messageKindStreamClose),
+	}, maximumStreamDataBlockSize
+}
